@@ -1,3 +1,4 @@
+import Secp.Proofs.DriversHmac
 import Secp.Proofs.DriversNonce
 import Secp.Proofs.Nonce
 /-
@@ -74,5 +75,34 @@ theorem nonceRFC6979_regenerated (privKey hash extra version : Bytes) (extraIter
 theorem nonceRFC6979_ne_undef (privKey hash extra version : Bytes) (extraIterations : Nat) :
     Secp.Gen.Drivers.nonceRFC6979 privKey hash extra version extraIterations ≠ DR.undef :=
   Secp.Proofs.DriversNonce.nonceRFC6979_ne_undef privKey hash extra version extraIterations
+
+
+/-! ### The resettable HMAC-SHA256 object itself (nonce.go `hmacsha256`), regenerated (pass T8)
+
+Each SHA-256 state is the byte string written since its last Reset; the object is the Lean structure `HmacObj`.  The
+methods are translated statement by statement (the in-place XOR loops over the 64-byte pads included) and proved equal
+to the model's operations, which the refinement theorem above relates to HMAC. -/
+
+theorem hmacNew_regenerated (key : Bytes) : Secp.Gen.Drivers.hmacNewGen key = hmacNew key :=
+  Secp.Proofs.DriversHmac.hmacNew_regenerated key
+theorem hmacWrite_regenerated (h : HmacObj) (p : Bytes) : Secp.Gen.Drivers.hmacWrite h p = h.write p :=
+  Secp.Proofs.DriversHmac.hmacWrite_regenerated h p
+theorem hmacReset_regenerated (h : HmacObj) : Secp.Gen.Drivers.hmacReset h = h.reset :=
+  Secp.Proofs.DriversHmac.hmacReset_regenerated h
+theorem hmacSum_regenerated (h : HmacObj) : Secp.Gen.Drivers.hmacSum h = h.sum :=
+  Secp.Proofs.DriversHmac.hmacSum_regenerated h
+/-- `initKey` (hash long keys, copy into the pads, XOR in place); pads of at most 64 bytes — exactly what the code's
+    64-iteration loops cover (with 65 the two differ: kernel-checked example in Proofs/DriversHmac.lean) -/
+theorem hmacInitKey_regenerated (h : HmacObj) (key : Bytes) (hi : h.ipad.length ≤ 64) (ho : h.opad.length ≤ 64) :
+    Secp.Gen.Drivers.hmacInitKey h key = h.initKey key :=
+  Secp.Proofs.DriversHmac.hmacInitKey_regenerated_le h key hi ho
+theorem hmacResetKey_regenerated (h : HmacObj) (key : Bytes) (hi : h.ipad.length = 64) (ho : h.opad.length = 64) :
+    Secp.Gen.Drivers.hmacResetKey h key = HmacObj.resetKey h key :=
+  Secp.Proofs.DriversHmac.hmacResetKey_regenerated h key hi ho
+/-- the pad-length hypotheses hold for every object the library can build: `newHMACSHA256` gives 64-byte pads and every
+    method preserves them -/
+theorem pads_invariant (key : Bytes) :
+    (hmacNew key).ipad.length = 64 ∧ (hmacNew key).opad.length = 64 :=
+  Secp.Proofs.DriversHmac.pads_hmacNew key
 
 end Secp.Props.C10
